@@ -368,7 +368,12 @@ func (g *vfGen) genC09() {
 func (g *vfGen) genC10() {
 	geo := []string{"Feature", "FeatureCollection", "Point", "LineString", "Polygon", "MultiPoint", "MultiLineString", "MultiPolygon", "GeometryCollection", "feature", "Circle", ""}
 	sib := func() string {
-		switch g.intn(9) {
+		switch g.intn(10) {
+		case 9:
+			// keys that spell a query path in one string (joined by a separator), and path elements as siblings
+			j := []string{".", "/", ",", " ", "", "\\u0000", ":", "\\t"}[g.intn(8)]
+			return []string{`"log` + j + `version":"1.2"`, `"asset` + j + `version":"2.0"`, `"log` + j + `entries":[]`, `"log` + j + `creator":{}`,
+				`"log` + j + `pages":[]`, `"version":"2.0","entries":[]`, `"` + j + `type":"Feature"`, `"type` + j + `":"Point"`}[g.intn(8)]
 		case 0:
 			return `"accessors":[1]`
 		case 1:
